@@ -1850,15 +1850,14 @@ class RedunBackendDb(RedunBackend):
 
         with self.with_session() as session:
             if not session.query(CallNode).filter_by(call_hash=call_hash).first():
-                session.add(
-                    CallNode(
-                        call_hash=call_hash,
-                        task_name=task_name,
-                        task_hash=task_hash,
-                        args_hash=args_hash,
-                        value_hash=result_hash,
-                    )
-                )
+                subtree_tasks = list(subtree_tasks)
+
+                # Values are committed on their own. Record them first, so that the CallNode and
+                # all rows that depend on it (edges, arguments, subtree tasks) are written in a
+                # single transaction: an interrupted or retried recording then never leaves a
+                # CallNode behind without its arguments and subtree tasks.
+                all_args = self._iter_args(expr_args, eval_args)
+                arg_value_hashes = [self.record_value(eval_arg) for _, _, _, eval_arg in all_args]
 
                 # Record CallEdges only if child was recorded (might not be if prov=False).
                 recorded_child_hashes = {
@@ -1869,18 +1868,28 @@ class RedunBackendDb(RedunBackend):
                         child_call_hashes,
                     )
                 }
+
+                # If child nodes were not recorded, then their tasks might not be recorded either.
+                if recorded_child_hashes < set(child_call_hashes):
+                    for task in subtree_tasks:
+                        self.record_value(task)
+
+                session.add(
+                    CallNode(
+                        call_hash=call_hash,
+                        task_name=task_name,
+                        task_hash=task_hash,
+                        args_hash=args_hash,
+                        value_hash=result_hash,
+                    )
+                )
                 for i, child_call_hash in enumerate(child_call_hashes):
                     if child_call_hash in recorded_child_hashes:
                         session.add(
                             CallEdge(parent_id=call_hash, child_id=child_call_hash, call_order=i)
                         )
 
-                self._record_args(call_hash, expr_args, eval_args)
-
-                # If child nodes were not recorded, then their tasks might not be recorded either.
-                if recorded_child_hashes < set(child_call_hashes):
-                    for task in subtree_tasks:
-                        self.record_value(task)
+                self._record_args(call_hash, all_args, arg_value_hashes)
 
                 # Record call subtree tasks.
                 for task in subtree_tasks:
@@ -1924,19 +1933,16 @@ class RedunBackendDb(RedunBackend):
                 # Recurse into arguments of Simple and Scheduler Expressions.
                 yield from self._find_arg_upstreams(value._upstreams)
 
-    def _record_args(
+    def _iter_args(
         self,
-        call_hash: str,
         expr_args: tuple[tuple, dict],
         eval_args: tuple[tuple, dict],
-    ) -> None:
+    ) -> list[tuple[int | None, str | None, Any, Any]]:
         """
-        Record the Arguments for a CallNode.
+        Returns the Arguments of a call as (position, key, expr_arg, eval_arg).
 
         Parameters
         ----------
-        call_hash : str
-            Hash of CallNode of these arguments.
         expr_args : Tuple[Tuple, dict]
             Original expressions for the task arguments. These expressions are used
             to record the full upstream dataflow.
@@ -1954,20 +1960,39 @@ class RedunBackendDb(RedunBackend):
         ]
         kw_keys = sorted(set(eval_kwargs) & set(expr_kwargs))
 
-        # Combine positional and keyword arguments into one iterator.
-        all_args = chain(
-            (
-                (i, None, expr_arg, eval_arg)
-                for i, (expr_arg, eval_arg) in enumerate(zip(expr_pos_args, eval_pos_args))
-            ),
-            ((None, key, expr_kwargs[key], eval_kwargs[key]) for key in kw_keys),
-            default_args,
+        # Combine positional and keyword arguments into one list.
+        return list(
+            chain(
+                (
+                    (i, None, expr_arg, eval_arg)
+                    for i, (expr_arg, eval_arg) in enumerate(zip(expr_pos_args, eval_pos_args))
+                ),
+                ((None, key, expr_kwargs[key], eval_kwargs[key]) for key in kw_keys),
+                default_args,
+            )
         )
 
+    def _record_args(
+        self,
+        call_hash: str,
+        all_args: list[tuple[int | None, str | None, Any, Any]],
+        value_hashes: list[str],
+    ) -> None:
+        """
+        Record the Arguments for a CallNode. The caller commits.
+
+        Parameters
+        ----------
+        call_hash : str
+            Hash of CallNode of these arguments.
+        all_args :
+            Arguments as returned by `_iter_args()`.
+        value_hashes : List[str]
+            Hashes of the (already recorded) evaluated arguments.
+        """
         with self.with_session() as session:
-            for i, key, expr_arg, eval_arg in all_args:
+            for (i, key, expr_arg, eval_arg), value_hash in zip(all_args, value_hashes):
                 # Record an Argument for the call.
-                value_hash = self.record_value(eval_arg)
                 arg_hash = hash_struct(["Argument", call_hash, str(i), str(key), value_hash])
                 session.add(
                     Argument(
@@ -1987,8 +2012,6 @@ class RedunBackendDb(RedunBackend):
                             result_call_hash=result_call_hash,
                         )
                     )
-
-            session.commit()
 
     @db_retry
     def record_call_node_context(
